@@ -450,6 +450,23 @@ def ki_transparent(ctx: Ctx):
                  construct='scan')
 
 
+def _comp_complete(ctx: Ctx, f: FuncInfo, comp: ast.AST, tp: str) -> bool:
+    """`[d for field in fields(tp) for d in find_tasks_in_param(getattr(tp, field.name))]`, unfiltered."""
+    ftp = ctx.P.func('tasks.find_tasks_in_param')
+    gens, elt = comp.generators, comp.elt
+    if len(gens) != 2 or any(g.ifs for g in gens):
+        return False
+    g1, g2 = gens
+    if not (isinstance(g1.iter, ast.Call) and (dotted(g1.iter.func) or '').split('.')[-1] == 'fields' and g1.iter.args
+            and isinstance(g1.iter.args[0], ast.Name) and g1.iter.args[0].id == tp and isinstance(g1.target, ast.Name)):
+        return False
+    it2 = g2.iter
+    if not (isinstance(it2, ast.Call) and ftp.qualname in ctx.P.resolve_call(it2, f) and it2.args):
+        return False
+    want = ast.parse(f'getattr({tp}, {g1.target.id}.name)', mode='eval').body
+    return same_expr(it2.args[0], want) and isinstance(g2.target, ast.Name) and isinstance(elt, ast.Name) and elt.id == g2.target.id
+
+
 def _instance_complete(ctx: Ctx, f: FuncInfo) -> tuple[bool, str]:
     """Does f(task) enumerate *every task instance* directly held in the task's fields?  True for a list built from
     `for field in fields(task)` x `for d in find_tasks_in_param(getattr(task, field.name))` without a condition; False
@@ -773,6 +790,9 @@ def _filter_chain(ctx: Ctx, fn: FuncInfo, fc, ta, at: int, depth: int):
                     if c != TRUE:
                         need = formula_of(ctx, fn, 'not use_cache')
                         ok = equivalent(c, need)
+                        if not ok and g.node(at).ast is not None:
+                            # ... or simply wherever the filtered value is used (the definition dominates the use)
+                            ok = implies(cond_from_entry(ctx, fn, g.node(at).ast), c) and g.dominates(d, at)
                         yield ('context filtered whenever the task will execute', ok,
                                f'the context is filtered only when {show(c)}; a task that runs with use_cache False must get it', node, fn)
                     continue
@@ -892,6 +912,11 @@ def load_xor_exec(ctx: Ctx):
                 vv = rd.def_value(vd, v.id) if vd is not None else None
                 val_ok = bool(vv and vv[0] == 'value' and vv[1] is rn)
             meta = kwarg(dv[1], 'meta', 1)
+            if isinstance(meta, ast.Name):
+                # `result_meta = ResultMeta(...)` named first
+                md = rd.single_def(d, meta.id)
+                mv = rd.def_value(md, meta.id) if md is not None else None
+                meta = mv[1] if (mv and mv[0] == 'value') else meta
             val_ok = val_ok and isinstance(meta, ast.Call) and any(q.endswith('ResultMeta') for q in ctx.P.resolve_call(meta, fn))
     yield ctx.ob('C03.LOAD-XOR-EXEC', args_ok and ret_ok and val_ok, fn, sv, 'save(storage, task, TaskResult(value=run())) and the same TaskResult is returned',
                  '' if args_ok and ret_ok and val_ok else 'the saved TaskResult is not the one built from run()\'s return value, or is not what is returned')
